@@ -222,7 +222,8 @@ def make_input(spec):
         # number gutter of the second hunk is wider than that of the first
         lines += ["@@ -3,%d +3,%d @@" % (len(spec["pre"]), len(spec["pre"]))] + [" " + z for z in spec["pre"]]
     start = 12345 if spec.get("pre") else 1
-    lines += ["@@ -%d,%d +%d,%d @@" % (start, len(spec["zero"]) + len(spec["minus"]), start,
+    ms, ps = spec.get("starts", (start, start))
+    lines += ["@@ -%d,%d +%d,%d @@" % (ms, len(spec["zero"]) + len(spec["minus"]), ps,
                                       len(spec["zero"]) + len(spec["plus"]))]
     lines += [" " + z for z in spec["zero"]] + ["-" + m for m in spec["minus"]] + ["+" + p for p in spec["plus"]]
     return ("\n".join(lines) + "\n").encode("utf-8")
@@ -239,6 +240,9 @@ def specs_for(content):
     yield {"zero": ["z"], "minus": [content, "q"], "plus": [content[:-1] + "c" if len(content) > 1 else "c"]}
     # two hunks whose line numbers have different numbers of digits
     yield {"pre": ["p"], "zero": [content], "minus": [content + "a"], "plus": ["a" + content]}
+    # the old-file numbers gain a digit inside the hunk (9999 -> 10000) while the new-file numbers do not
+    yield {"starts": (9998, 9990), "zero": [content], "minus": [content + "a", content], "plus": ["a" + content]}
+    yield {"starts": (9990, 9998), "zero": [content], "minus": [content + "a"], "plus": ["a" + content, content]}
 
 
 def run_task(task):
@@ -259,7 +263,7 @@ def run_task(task):
     # (the two-hunk case widens the number gutter by one column: it needs a panel that still holds a
     # double-width character plus the wrap symbol)
     wide_ok = (g.W // 2 - 7 - (1 if g.markers else 0)) >= 3
-    cases = [(c, s) for c in cont for s in specs_for(c) if wide_ok or not s.get("pre")]
+    cases = [(c, s) for c in cont for s in specs_for(c) if wide_ok or not (s.get("pre") or s.get("starts"))]
     for i in range(0, len(cases), 256):
         if time.time() > deadline:
             capped = True
